@@ -65,3 +65,6 @@ Proof. intros. unfold go_quot. apply Z.quot_div_nonneg; lia. Qed.
 Lemma go_rem_nonneg a b : 0 <= a -> 0 < b -> go_rem a b = a mod b.
 Proof. intros. unfold go_rem. apply Z.rem_mod_nonneg; lia. Qed.
 
+
+Lemma ret_inj {A} (a b : A) : Ret a = Ret b -> a = b.
+Proof. congruence. Qed.
